@@ -8,21 +8,26 @@ Open Scope N_scope.
 
 Section Run.
   Variable site : url -> page.
-  Variable in_scope : bool -> url -> rinfo -> N -> bool.
+  Variable host : url -> N.
+  Variable in_scope : list N -> bool -> url -> rinfo -> N -> bool.
   Variable maxredir : nat.
   Variable starts : list url.
   Variable conc : nat.
+  Hypothesis scope_ext : forall sp sp', (forall h, In h sp <-> In h sp') ->
+    forall b u i n, in_scope sp b u i n = in_scope sp' b u i n.
 
-  Notation plan := (plan site in_scope maxredir).
-  Notation kids := (kids site in_scope maxredir).
-  Notation fire := (fire site in_scope maxredir starts conc).
-  Notation step := (step site in_scope maxredir starts conc).
-  Notation step_nc := (step_nc site in_scope maxredir starts conc).
-  Notation reach := (reach site in_scope maxredir starts conc).
-  Notation reach_nc := (reach_nc site in_scope maxredir starts conc).
-  Notation quiescent := (quiescent site in_scope maxredir starts conc).
-  Notation Inv := (Inv site in_scope maxredir).
-  Notation item_ok := (item_ok site in_scope maxredir).
+  Notation scope := (in_scope (sp0 host starts)).
+  Notation plan := (Engine.plan site scope maxredir).
+  Notation kids := (Engine.kids site scope maxredir).
+  Notation fire := (Engine.fire site host in_scope maxredir starts conc).
+  Notation step := (Engine.step site host in_scope maxredir starts conc).
+  Notation step_nc := (Engine.step_nc site host in_scope maxredir starts conc).
+  Notation reach := (Engine.reach site host in_scope maxredir starts conc).
+  Notation reach_nc := (Engine.reach_nc site host in_scope maxredir starts conc).
+  Notation quiescent := (Engine.quiescent site host in_scope maxredir starts conc).
+  Notation Inv := (Inv site host in_scope maxredir starts).
+  Notation InvH := (InvH host starts).
+  Notation item_ok := (item_ok site host in_scope maxredir starts).
 
   Lemma step_nc_step s s' : step_nc s s' -> step s s'.
   Proof. intros [l [_ H]]. now exists l. Qed.
@@ -35,68 +40,68 @@ Section Run.
   Definition no_fail : Prop := forall u, resolves site maxredir u = true.
 
   Lemma fetch_no_error fuel : forall p tries u ini,
-    resolves site fuel u = true -> ~ In (ACheckIn Error) (fetch site in_scope fuel p tries u ini).
+    resolves site fuel u = true -> ~ In (ACheckIn Error) (fetch site scope fuel p tries u ini).
   Proof.
     induction fuel as [|f IH]; intros p tries u ini R; cbn [fetch resolves] in *;
       destruct (site u) as [code links|code|code|code [t|]]; try discriminate.
     all: try (intros [C|[C|C]]; try discriminate; try contradiction;
               (apply in_app_or in C; destruct C as [C|[C|[]]]; [|discriminate];
-               destruct (children in_scope p u links); cbn in C; [contradiction|destruct C as [C|[]]; discriminate])).
+               destruct (children scope p u links); cbn in C; [contradiction|destruct C as [C|[]]; discriminate])).
     all: try (intros [C|[C|[C|[]]]]; discriminate).
-    intros [C|[C|C]]; try discriminate. destruct (in_scope true t p tries).
+    intros [C|[C|C]]; try discriminate. destruct (scope true t p tries).
     - now apply (IH p tries t false R).
     - destruct C as [C|[]]; discriminate.
   Qed.
 
   Lemma plan_no_error p tries : no_fail -> ~ In (ACheckIn Error) (plan p tries).
   Proof.
-    intros NF. unfold Engine.plan. destruct (in_scope false (ri_url p) p tries).
+    intros NF. unfold Engine.plan. destruct (scope false (ri_url p) p tries).
     - apply fetch_no_error, NF.
     - intros [C|[]]; discriminate.
   Qed.
 
   (* every URL a visit adds is an admitted link of a document it fetched *)
   Lemma fetch_adds fuel : forall p tries u ini i,
-    In i (adds_of (fetch site in_scope fuel p tries u ini)) ->
-    exists f code links l, site f = Doc code links /\ In l links /\ i = child_info p l /\ in_scope false f i 0 = true.
+    In i (adds_of (fetch site scope fuel p tries u ini)) ->
+    exists f code links l, site f = Doc code links /\ In l links /\ i = child_info p l /\ scope false f i 0 = true.
   Proof.
     induction fuel as [|f IH]; intros p tries u ini i H; cbn [fetch] in H;
       destruct (site u) as [code links|code|code|code [t|]] eqn:S; cbn [adds_of] in H; try contradiction.
     all: try (rewrite adds_of_app in H; cbn in H; rewrite app_nil_r in H;
-              assert (Hi : In i (children in_scope p u links))
-                by (destruct (children in_scope p u links); cbn in H; [contradiction | now rewrite app_nil_r in H]);
+              assert (Hi : In i (children scope p u links))
+                by (destruct (children scope p u links); cbn in H; [contradiction | now rewrite app_nil_r in H]);
               unfold children in Hi; apply filter_In in Hi; destruct Hi as [Hi Sc]; apply in_map_iff in Hi;
               destruct Hi as [l [<- Hl]]; exists u, code, links, l; auto).
-    destruct (in_scope true t p tries); [eapply IH; eauto | cbn in H; contradiction].
+    destruct (scope true t p tries); [eapply IH; eauto | cbn in H; contradiction].
   Qed.
 
   Lemma kids_from_links p tries i :
     In i (kids p tries) ->
-    exists f code links l, site f = Doc code links /\ In l links /\ i = child_info p l /\ in_scope false f i 0 = true.
+    exists f code links l, site f = Doc code links /\ In l links /\ i = child_info p l /\ scope false f i 0 = true.
   Proof.
-    unfold Engine.kids, Engine.plan. destruct (in_scope false (ri_url p) p tries); [apply fetch_adds | cbn; contradiction].
+    unfold Engine.kids, Engine.plan. destruct (scope false (ri_url p) p tries); [apply fetch_adds | cbn; contradiction].
   Qed.
 
   Lemma flush_length l : (length (flush l) <= 1)%nat.
   Proof. destruct l; cbn; lia. Qed.
 
   Lemma fetch_length fuel : forall p tries u ini,
-    (length (fetch site in_scope fuel p tries u ini) <= 2 * fuel + 4)%nat.
+    (length (fetch site scope fuel p tries u ini) <= 2 * fuel + 4)%nat.
   Proof.
     induction fuel as [|f IH]; intros p tries u ini; cbn [fetch]; destruct (site u) as [code links|code|code|code [t|]]; cbn [length].
-    all: try (rewrite app_length; pose proof (flush_length (children in_scope p u links)); cbn; lia).
+    all: try (rewrite app_length; pose proof (flush_length (children scope p u links)); cbn; lia).
     all: try lia.
-    destruct (in_scope true t p tries); [specialize (IH p tries t false)|cbn]; lia.
+    destruct (scope true t p tries); [specialize (IH p tries t false)|cbn]; lia.
   Qed.
 
   Definition plan_bound : nat := 2 * maxredir + 4.
   Lemma plan_length p tries : (length (plan p tries) <= plan_bound)%nat.
   Proof.
-    unfold Engine.plan, plan_bound. destruct (in_scope false (ri_url p) p tries); [apply fetch_length | cbn; lia].
+    unfold Engine.plan, plan_bound. destruct (scope false (ri_url p) p tries); [apply fetch_length | cbn; lia].
   Qed.
 
   (* an action still owed by an item is an action of its plan *)
-  Lemma item_todo_in_plan t it a : item_ok t it -> In a (it_todo it) -> In a (plan (it_info it) (it_tries it)).
+  Lemma item_todo_in_plan t lg it a : item_ok t lg it -> In a (it_todo it) -> In a (plan (it_info it) (it_tries it)).
   Proof. intros [_ [did [a0 [more [st [P _]]]]]] H. rewrite P. apply in_or_app. now right. Qed.
 
   Lemma adds_of_In l k : In (AAddMany k) l -> forall i, In i k -> In i (adds_of l).
@@ -118,7 +123,9 @@ Section Run.
     inv_tries0 : forall r, In r (st_tbl s) -> r_status r = Todo \/ r_status r = InProgress -> r_tries r = 0;
     inv_tries1 : forall r, In r (st_tbl s) -> is_final (r_status r) = true -> r_tries r = 1;
     inv_derived : Derived (infos (st_tbl s));
-    inv_starts : st_mode s = Running -> forall u, In u starts -> In u (urls (st_tbl s))
+    (* every request ever made is a request of the first-try plan of a table row *)
+    inv_log0 : forall u q ini, In (u, q, ini) (st_log s) ->
+               exists i, In i (infos (st_tbl s)) /\ ri_url i = u /\ In (ARequest q ini) (plan i 0)
   }.
 
   Lemma infos_app a b : infos (a ++ b) = infos a ++ infos b.
@@ -151,23 +158,32 @@ Section Run.
   Lemma checked_in_cases st : checked_in st -> st <> Error -> is_final st = true /\ st <> Todo /\ st <> InProgress.
   Proof. intros [-> | [-> | ->]] H; try congruence; repeat split; discriminate. Qed.
 
-  Lemma Inv2_step s s' : Inv s -> Inv2 s -> step s s' -> Inv2 s'.
+  Lemma log0_keep s s' : step s s' ->
+    (forall u q ini, In (u, q, ini) (st_log s) -> exists i, In i (infos (st_tbl s)) /\ ri_url i = u /\ In (ARequest q ini) (plan i 0)) ->
+    forall u q ini, In (u, q, ini) (st_log s) -> exists i, In i (infos (st_tbl s')) /\ ri_url i = u /\ In (ARequest q ini) (plan i 0).
   Proof.
-    intros I J [l H]. destruct l; cbn [Engine.fire] in H.
+    intros St L u q ini H. destruct (L u q ini H) as [i [Hi R]]. exists i. split; [|exact R].
+    now apply (step_infos_incl site host in_scope maxredir starts conc s s').
+  Qed.
+
+  Lemma Inv2_step s s' : InvH s -> Inv s -> Inv2 s -> step s s' -> Inv2 s'.
+  Proof.
+    intros IH I J St. pose proof St as St0. destruct St as [l H]. destruct l; cbn [Engine.fire] in H.
+    all: pose proof (inv_nodup _ _ _ _ _ s I) as ND.
     - (* checkout *)
       destruct (st_mode s) eqn:M; try discriminate.
       destruct (pick (st_tbl s)) as [r|] eqn:P; [|discriminate]. inversion H; subst s'; clear H.
       apply pick_some in P. destruct P as [Hr St].
       assert (St' : r_status r = Todo) by (destruct St as [?|C]; [assumption | exfalso; now apply (inv_no_error s J r Hr)]).
       constructor; cbn.
-      + intros r' Hr'. apply (upd_cases _ r) in Hr'; auto using inv_nodup.
-        destruct Hr' as [-> | [Hr' _]]; [discriminate | now apply inv_no_error].
-      + intros r' Hr' S'. apply (upd_cases _ r) in Hr'; auto using inv_nodup.
-        destruct Hr' as [-> | [Hr' _]]; [cbn; apply (inv_tries0 s J r Hr); now left | now apply inv_tries0].
-      + intros r' Hr' S'. apply (upd_cases _ r) in Hr'; auto using inv_nodup.
-        destruct Hr' as [-> | [Hr' _]]; [discriminate | now apply inv_tries1].
+      + intros r' Hr'. apply (upd_cases _ r) in Hr'; auto.
+        destruct Hr' as [-> | [Hr' _]]; [discriminate | now apply (inv_no_error s J)].
+      + intros r' Hr' S'. apply (upd_cases _ r) in Hr'; auto.
+        destruct Hr' as [-> | [Hr' _]]; [cbn; apply (inv_tries0 s J r Hr); now left | now apply (inv_tries0 s J)].
+      + intros r' Hr' S'. apply (upd_cases _ r) in Hr'; auto.
+        destruct Hr' as [-> | [Hr' _]]; [discriminate | now apply (inv_tries1 s J)].
       + rewrite infos_upd by auto with eng. apply inv_derived; assumption.
-      + intros _ u Hu. rewrite urls_upd by auto with eng. now apply inv_starts.
+      + apply (log0_keep s _ St0). apply inv_log0; assumption.
     - (* start *)
       destruct (st_mode s) eqn:M; try discriminate.
       destruct (n_started (st_items s) <? conc)%nat; [|discriminate].
@@ -178,74 +194,88 @@ Section Run.
       destruct (act_items n (st_items s)) as [[[it a] its]|] eqn:A; [|discriminate]. inversion H; subst s'; clear H.
       apply act_items_inv in A. destruct A as [l1 [l2 [more [E [Sf [T [E' _]]]]]]].
       assert (Hit : In it (st_items s)) by (rewrite E; apply in_or_app; right; now left).
-      pose proof (inv_items _ _ _ s I it Hit) as Ok.
-      assert (Ha : In a (plan (it_info it) (it_tries it))) by (apply (item_todo_in_plan (st_tbl s)); [assumption | rewrite T; now left]).
-      destruct Ok as [[r0 [H0 [Ei [Es Et]]]] [did [a0 [more0 [st [P [T0 [L [C [F Ad]]]]]]]]]].
+      pose proof (inv_items _ _ _ _ _ s I it Hit) as Ok.
+      assert (Ha : In a (plan (it_info it) (it_tries it))) by (apply (item_todo_in_plan (st_tbl s) (st_log s)); [assumption | rewrite T; now left]).
+      destruct Ok as [[r0 [H0 [Ei [Es Et]]]] [did [a0 [more0 [st [P [T0 [L [C [F [Ad Rq]]]]]]]]]]].
       assert (U0 : r_url r0 = ri_url (it_info it)) by (unfold r_url; now rewrite Ei).
       assert (T00 : it_tries it = 0) by (rewrite <- Et; apply (inv_tries0 s J r0 H0); now right).
-      destruct a; cbn [apply_tbl].
-      + destruct J. constructor; cbn; auto.
+      destruct a; cbn [apply_tbl apply_log].
+      + constructor; cbn; try (apply J).
+        intros u' q' ini' [Hl|Hl]; [|now apply (log0_keep s _ St0 (inv_log0 s J))].
+        inversion Hl; subst u' q' ini'. exists (it_info it). split; [|split; [reflexivity|]].
+        * apply (step_infos_incl site host in_scope maxredir starts conc s _ St0). rewrite <- Ei. unfold infos. now apply in_map.
+        * now rewrite <- T00.
       + constructor; cbn.
-        * intros r' Hr'. apply (upd_cases _ r0) in Hr'; auto using inv_nodup.
-          destruct Hr' as [-> | [Hr' _]]; [cbn; congruence | now apply inv_no_error].
-        * intros r' Hr' S'. apply (upd_cases _ r0) in Hr'; auto using inv_nodup.
-          destruct Hr' as [-> | [Hr' _]]; [cbn; apply (inv_tries0 s J r0 H0); now right | now apply inv_tries0].
-        * intros r' Hr' S'. apply (upd_cases _ r0) in Hr'; auto using inv_nodup.
-          destruct Hr' as [-> | [Hr' _]]; [cbn in S'; rewrite Es in S'; discriminate | now apply inv_tries1].
+        * intros r' Hr'. apply (upd_cases _ r0) in Hr'; auto.
+          destruct Hr' as [-> | [Hr' _]]; [cbn; congruence | now apply (inv_no_error s J)].
+        * intros r' Hr' S'. apply (upd_cases _ r0) in Hr'; auto.
+          destruct Hr' as [-> | [Hr' _]]; [cbn; apply (inv_tries0 s J r0 H0); now right | now apply (inv_tries0 s J)].
+        * intros r' Hr' S'. apply (upd_cases _ r0) in Hr'; auto.
+          destruct Hr' as [-> | [Hr' _]]; [cbn in S'; rewrite Es in S'; discriminate | now apply (inv_tries1 s J)].
         * rewrite infos_upd by auto with eng. apply inv_derived; assumption.
-        * intros _ u Hu. rewrite urls_upd by auto with eng. now apply inv_starts.
+        * apply (log0_keep s _ St0). apply inv_log0; assumption.
       + constructor; cbn.
-        * intros r' Hr'. apply add_many_In in Hr'. destruct Hr' as [Hr' | [i [_ ->]]]; [now apply inv_no_error | discriminate].
-        * intros r' Hr' S'. apply add_many_In in Hr'. destruct Hr' as [Hr' | [i [_ ->]]]; [now apply inv_tries0 | reflexivity].
-        * intros r' Hr' S'. apply add_many_In in Hr'. destruct Hr' as [Hr' | [i [_ ->]]]; [now apply inv_tries1 | discriminate].
+        * intros r' Hr'. apply add_many_In in Hr'. destruct Hr' as [Hr' | [i [_ ->]]]; [now apply (inv_no_error s J) | discriminate].
+        * intros r' Hr' S'. apply add_many_In in Hr'. destruct Hr' as [Hr' | [i [_ ->]]]; [now apply (inv_tries0 s J) | reflexivity].
+        * intros r' Hr' S'. apply add_many_In in Hr'. destruct Hr' as [Hr' | [i [_ ->]]]; [now apply (inv_tries1 s J) | discriminate].
         * apply derived_add_many; [apply inv_derived; assumption|].
           intros i Hi. right. exists (it_info it). split.
           -- rewrite <- Ei. unfold infos. now apply in_map.
           -- unfold Engine.kids. rewrite <- T00. eapply adds_of_In; eauto.
-        * intros _ u Hu. apply add_many_incl. now apply inv_starts.
+        * apply (log0_keep s _ St0). apply inv_log0; assumption.
       + assert (Hs : s0 <> Error) by (intros ->; now apply (plan_no_error (it_info it) (it_tries it) NF)).
         assert (Cs : checked_in s0).
-        { destruct (plan_shape site in_scope maxredir (it_info it) (it_tries it)) as [pre [st' [Ep [Fp Cp]]]].
+        { destruct (plan_shape site scope maxredir (it_info it) (it_tries it)) as [pre [st' [Ep [Fp Cp]]]].
           rewrite Ep in Ha. apply in_app_or in Ha. destruct Ha as [Ha|[Ha|[]]].
           - rewrite forallb_forall in Fp. specialize (Fp _ Ha). discriminate.
           - inversion Ha; subst. assumption. }
         destruct (checked_in_cases s0 Cs Hs) as [Fin [NT NP]].
         constructor; cbn.
-        * intros r' Hr'. apply (upd_cases _ r0) in Hr'; auto using inv_nodup.
-          destruct Hr' as [-> | [Hr' _]]; [cbn; assumption | now apply inv_no_error].
-        * intros r' Hr' S'. apply (upd_cases _ r0) in Hr'; auto using inv_nodup.
-          destruct Hr' as [-> | [Hr' _]]; [cbn in S'; destruct S'; congruence | now apply inv_tries0].
-        * intros r' Hr' S'. apply (upd_cases _ r0) in Hr'; auto using inv_nodup.
-          destruct Hr' as [-> | [Hr' _]]; [cbn; rewrite Et, T00; reflexivity | now apply inv_tries1].
+        * intros r' Hr'. apply (upd_cases _ r0) in Hr'; auto.
+          destruct Hr' as [-> | [Hr' _]]; [cbn; assumption | now apply (inv_no_error s J)].
+        * intros r' Hr' S'. apply (upd_cases _ r0) in Hr'; auto.
+          destruct Hr' as [-> | [Hr' _]]; [cbn in S'; destruct S'; congruence | now apply (inv_tries0 s J)].
+        * intros r' Hr' S'. apply (upd_cases _ r0) in Hr'; auto.
+          destruct Hr' as [-> | [Hr' _]]; [cbn; rewrite Et, T00; reflexivity | now apply (inv_tries1 s J)].
         * rewrite infos_upd by auto with eng. apply inv_derived; assumption.
-        * intros _ u Hu. rewrite urls_upd by auto with eng. now apply inv_starts.
+        * apply (log0_keep s _ St0). apply inv_log0; assumption.
     - (* crash *)
-      inversion H; subst s'; clear H. destruct J. constructor; cbn; auto. discriminate.
+      inversion H; subst s'; clear H. destruct J. constructor; cbn; auto.
     - (* release *)
       destruct (st_mode s) eqn:M; try discriminate. inversion H; subst s'; clear H.
       constructor; cbn; try discriminate.
       + intros r' Hr'. apply In_release in Hr'. destruct Hr' as [r [Hr ->]].
-        destruct (status_eqb (r_status r) InProgress); [discriminate | now apply inv_no_error].
+        destruct (status_eqb (r_status r) InProgress); [discriminate | now apply (inv_no_error s J)].
       + intros r' Hr' S'. apply In_release in Hr'. destruct Hr' as [r [Hr ->]].
         destruct (status_eqb (r_status r) InProgress) eqn:Sx.
         * apply status_eqb_eq in Sx. cbn. apply (inv_tries0 s J r Hr). now right.
-        * now apply inv_tries0.
+        * now apply (inv_tries0 s J).
       + intros r' Hr' S'. apply In_release in Hr'. destruct Hr' as [r [Hr ->]].
-        destruct (status_eqb (r_status r) InProgress) eqn:Sx; [discriminate | now apply inv_tries1].
+        destruct (status_eqb (r_status r) InProgress) eqn:Sx; [discriminate | now apply (inv_tries1 s J)].
       + rewrite infos_release. apply inv_derived; assumption.
+      + apply (log0_keep s _ St0). apply inv_log0; assumption.
     - (* add start URLs *)
       destruct (st_mode s) eqn:M; try discriminate. inversion H; subst s'; clear H.
       constructor; cbn.
-      + intros r' Hr'. apply add_many_In in Hr'. destruct Hr' as [Hr' | [i [_ ->]]]; [now apply inv_no_error | discriminate].
-      + intros r' Hr' S'. apply add_many_In in Hr'. destruct Hr' as [Hr' | [i [_ ->]]]; [now apply inv_tries0 | reflexivity].
-      + intros r' Hr' S'. apply add_many_In in Hr'. destruct Hr' as [Hr' | [i [_ ->]]]; [now apply inv_tries1 | discriminate].
+      + intros r' Hr'. apply add_many_In in Hr'. destruct Hr' as [Hr' | [i [_ ->]]]; [now apply (inv_no_error s J) | discriminate].
+      + intros r' Hr' S'. apply add_many_In in Hr'. destruct Hr' as [Hr' | [i [_ ->]]]; [now apply (inv_tries0 s J) | reflexivity].
+      + intros r' Hr' S'. apply add_many_In in Hr'. destruct Hr' as [Hr' | [i [_ ->]]]; [now apply (inv_tries1 s J) | discriminate].
       + apply derived_add_many; [apply inv_derived; assumption|].
         intros i Hi. left. apply in_map_iff in Hi. destruct Hi as [u [<- Hu]]. eauto.
-      + intros _ u Hu. change u with (ri_url (start_info u)). apply add_many_covers. now apply in_map.
+      + apply (log0_keep s _ St0). apply inv_log0; assumption.
   Qed.
 
   Lemma reach_Inv2 s : reach s -> Inv2 s.
   Proof.
-    induction 1; [apply Inv2_init|]. eapply Inv2_step; eauto. now apply (reach_Inv site in_scope maxredir starts conc).
+    induction 1 as [|s s' R IHR St]; [apply Inv2_init|].
+    eapply Inv2_step; eauto.
+    - now apply (reach_InvH site host in_scope maxredir starts conc).
+    - now apply (reach_Inv site host in_scope maxredir starts conc scope_ext).
+  Qed.
+
+  Lemma reach_all s : reach s -> InvH s /\ Inv s /\ Inv2 s.
+  Proof.
+    intros R. split; [now apply (reach_InvH site host in_scope maxredir starts conc)|].
+    split; [now apply (reach_Inv site host in_scope maxredir starts conc scope_ext) | now apply reach_Inv2].
   Qed.
 End Run.
